@@ -144,7 +144,7 @@ def build_sig_script(rng, xonly, allow_codesep, nsig=None, fill=True):
 
 def make(rng, kind=None):
     """-> {"tx": hex, "txin": hex, "kind": kind, "opts": [...]}"""
-    kind = kind or rng.weighted([(3, "p2pkh"), (2, "multisig"), (3, "p2sh-multisig"), (2, "p2sh-generic"), (1, "p2sh-empty"), (1, "p2wsh-template"), (2, "legacy-codesep"), (2, "p2wpkh"),
+    kind = kind or rng.weighted([(3, "p2pkh"), (2, "multisig"), (3, "p2sh-multisig"), (2, "p2sh-generic"), (1, "p2sh-empty"), (1, "p2wsh-template"), (2, "hashlock"), (2, "legacy-codesep"), (2, "p2wpkh"),
                                  (1, "p2sh-p2wpkh"), (4, "p2wsh"), (2, "p2sh-p2wsh"), (2, "p2tr"), (7, "tapscript")])
     opts = []
     select = None
@@ -237,6 +237,20 @@ def make(rng, kind=None):
         tx.vin[0].witness = list(reversed(sigs)) + [ws]
         if kind == "p2sh-p2wsh":
             tx.vin[0].script_sig = S.push(prog)
+    elif kind == "hashlock":
+        # a bare hash lock; in a share of the cases scriptSig and scriptPubKey have exactly the same length
+        which = rng.choice(["sha256", "hash160", "hash256", "ripemd160"])
+        spk_len = {"sha256": 35, "hash256": 35, "hash160": 23, "ripemd160": 23}[which]
+        n = spk_len - 1 if rng.chance(40) else rng.range(2, 75)
+        pre = rng.bytes(n - 1) + b"\xab"
+        h = {"sha256": sha256(pre), "hash256": T.dsha(pre), "hash160": T.hash160(pre), "ripemd160": T.ripemd160(pre)}[which]
+        opc = {"sha256": 0xa8, "hash256": 0xaa, "hash160": 0xa9, "ripemd160": 0xa6}[which]
+        spk = bytes([opc]) + S.push(h) + bytes([0x87])
+        if which == "hash160":
+            spk = bytes([0x61]) + spk          # OP_NOP in front: not the P2SH pattern
+        fund = funding(spk)
+        tx = spending_skeleton(fund, rng)
+        tx.vin[0].script_sig = S.push(pre) if not (which == "hash160" and n == spk_len - 1) else S.push(pre + b"\xcd")
     elif kind == "p2wsh-template":
         # a witness script that has the byte shape of a standard output template (a hash lock), no signature
         # (btcdeb re-parses witness items from hex text: an item whose hex is all decimal digits becomes a number - a
